@@ -11,6 +11,7 @@
 
 #include <bxdecay0/PbAtShell.h>
 #include <bxdecay0/alpha.h>
+#include <cstring>
 #include <bxdecay0/beta.h>
 #include <bxdecay0/beta1.h>
 #include <bxdecay0/beta2.h>
@@ -47,6 +48,28 @@ void nucltransklm_(double *, double *, double *, double *, double *, double *, d
 void nucltransklm_pb_(double *, double *, double *, double *, double *, double *, double *, double *, double *, double *, double *);
 void pbatshell_(int *, double *, double *, double *);
 void vf_getplog69_(double * p, int * n);
+void vf_getsl2_(double * p, int * n);
+}
+
+// The screened-lambda2 tables of the first-forbidden-unique betas are filled inside decay0_beta_1fu (local storage) and reach
+// decay0_divdif as its first argument; the library calls that kernel through the PLT, so this definition in the executable sees the
+// table the port really uses (and forwards to the real kernel).
+#include <dlfcn.h>
+#include <bxdecay0/divdif.h>
+static double g_port_sl2[48];
+static bool g_capture_sl2 = false, g_captured_sl2 = false;
+namespace bxdecay0 {
+  double decay0_divdif(const double * F_, const double * A_, int NN_, double X_, int MM_)
+  {
+    typedef double (*fn_t)(const double *, const double *, int, double, int);
+    static fn_t real = (fn_t)dlsym(RTLD_NEXT, "_ZN8bxdecay013decay0_divdifEPKdS1_idi");
+    if (!real) abort();
+    if (g_capture_sl2 && NN_ == 48 && !g_captured_sl2) {
+      memcpy(g_port_sl2, F_, sizeof g_port_sl2);
+      g_captured_sl2 = true;
+    }
+    return real(F_, A_, NN_, X_, MM_);
+  }
 }
 
 static FILE * OUT = stdout;
@@ -306,6 +329,46 @@ int main(int argc, char ** argv)
       mini(b, fmt("beta_1fu(Q=%.10g,Z=%g,th=%.6g,c=%.6g,%.6g,%.6g,%.6g)", Q, Z, th, c[0], c[1], c[2], c[3]),
            [&] { double q = Q, z = Z, a = tc, h = th, c1 = c[0], c2 = c[1], c3 = c[2], c4 = c[3]; beta_1fu_(&q, &z, &a, &h, &tdr, &c1, &c2, &c3, &c4); },
            [&](event & ev) { decay0_beta_1fu(tape, ev, Q, Z, tc, th, tdp, c[0], c[1], c[2], c[3]); }, [&] { return close_rel(tdr, tdp); });
+    }
+    b.emit();
+  }
+  // ---- screened lambda2 tables of beta_1fu, entry by entry, for every daughter charge (a table entry off by 2e-4 flips one
+  //      accept/reject decision in 1e7 events: invisible to sampling, plain to a table comparison)
+  {
+    Block b;
+    b.name = "sl2-tables";
+    for (int Z = 1; Z <= 100; Z++) {
+      double Q = 3.5, zz = Z, tc = 0, th = 0, tdr = 0, tdp = 0, c0 = 0;
+      // reference: fills common/bj69sl2/ for this Z
+      tape.reseed(seed, 9000 + Z);
+      tape.rewind();
+      vf_clearevent_();
+      {
+        double q = Q, z = zz, a = tc, h = th, c1 = c0, c2 = c0, c3 = c0, c4 = c0;
+        beta_1fu_(&q, &z, &a, &h, &tdr, &c1, &c2, &c3, &c4);
+      }
+      double rsl2[48];
+      int n48 = 0;
+      vf_getsl2_(rsl2, &n48);
+      // port: the table it hands to the interpolation kernel
+      tape.rewind();
+      g_captured_sl2 = false;
+      g_capture_sl2 = true;
+      event ev;
+      decay0_beta_1fu(tape, ev, Q, zz, tc, th, tdp, c0, c0, c0, c0);
+      g_capture_sl2 = false;
+      b.n += 48;
+      if (!g_captured_sl2) {
+        b.fail("levelA|sl2-tables|not-observed", fmt("Z=%d: the port made no 48-point interpolation call", Z));
+        continue;
+      }
+      bool tabulated = false;
+      for (int i = 0; i < 48; i++) {
+        if (rsl2[i] != 1.0) tabulated = true;
+        if (std::fabs(rsl2[i] - g_port_sl2[i]) > 1e-12)
+          b.fail(fmt("levelA|sl2-tables|Z%d", Z), fmt("Z=%d: sl2[%d] (p = %g): reference %.10g, port %.10g", Z, i + 1, std::exp(BJ69::plog69[i]), rsl2[i], g_port_sl2[i]));
+      }
+      if (tabulated) b.distinct.insert(std::to_string(Z));
     }
     b.emit();
   }
